@@ -495,6 +495,12 @@ func judgeConc(c ConcCase, r *concRun, o *Obs) error {
 		}
 		r.appClosed = true // from here on only the lenient (prefix) wire rules apply
 	}
+	if isTimeout(r.readerErr) {
+		// nobody sets a read deadline here: the only timeouts around are those of
+		// write-side calls that waited for the connection (the handlers' best-effort
+		// replies included), and those are not the reader's business
+		return fmt.Errorf("the reading goroutine stopped with a timeout error (%v) although no read deadline was ever set: a reply that timed out waiting for the connection poisoned the read side", r.readerErr)
+	}
 	if call := r.gc.ReadDeadlineTouched(); call != "" {
 		return fmt.Errorf("%s was called on the transport although nobody in this scenario sets a read deadline: a write call changed the reading goroutine's deadline", call)
 	}
